@@ -91,6 +91,16 @@ class DRYConfig:  # pylint: disable=too-many-instance-attributes
             ("min_occurrences", self.min_occurrences),
             ("min_constant_occurrences", self.min_constant_occurrences),
         ]
+        # The per-language overrides are optional, but a given one is a threshold like the global one
+        positive_fields += [
+            (f"{language}.min_occurrences", value)
+            for language, value in (
+                ("python", self.python_min_occurrences),
+                ("typescript", self.typescript_min_occurrences),
+                ("javascript", self.javascript_min_occurrences),
+            )
+            if value is not None
+        ]
         for name, value in positive_fields:
             if value <= 0:
                 raise ValueError(f"{name} must be positive, got {value}")
